@@ -29,6 +29,7 @@ def run(ck):
     ck.rule("R4", "the aliasing test of expression propagation measures each memory access with its own base, offset and size", floor=3)
     _merge_rules(ck)
     _phi_rules(ck)
+    _dummy_phi_rules(ck)
 
     m = ck.repo.mod(DF)
     fn = m.func("DeadRemoval.is_unkillable_destination")
@@ -367,3 +368,43 @@ def _phi_rules(ck):
               "a Phi source is dropped under [%s]: this does not say that every predecessor it flows through was deleted (a source shared by a "
               "deleted and a live predecessor must stay)" % ", ".join("%s is %s" % (norm(t), b) for t, b in pth.conds))
     ck.ob("R6", "update_phi_with_deleted_edges:drop-path-found", n_drop >= 1, m.where(lp), "no path dropping a source found (extractor blind)")
+
+
+def _dummy_phi_rules(ck):
+    """R7: DelDummyPhi replaces a class of equivalent SSA variables by their common value, re-evaluated at the join.  That is only sound
+    for a value that does not read memory ANYWHERE inside it (a store between the original definition and the join changes what a nested
+    load returns) and that is not a call: every use of the value in the replacement is reached only with the must-fact that
+    `expr_has_mem(value)` is false (the deep test; `value.is_mem()` looks at the root only) and that the value is not a call."""
+    from sa.facts import guard_facts
+    ck.rule("R7", "a dummy-phi class is replaced by its value only when the value contains no memory read at any depth and is not a call", floor=1)
+    m = ck.repo.mod(DF)
+    fn = m.func("DelDummyPhi.del_dummy_phi")
+    cfg = CFG(fn)
+    facts = guard_facts(cfg)
+    binds = [nd for nd in cfg.nodes if nd.kind == "stmt" and isinstance(nd.ast, ast.Assign) and isinstance(nd.ast.targets[0], ast.Tuple)
+             and "get_equivalence_class" in norm(fn) and len(nd.ast.targets[0].elts) == 4]
+    ck.need(binds, "DelDummyPhi.del_dummy_phi: unpacking of the equivalence class not found")
+    val = norm(binds[0].ast.targets[0].elts[2])
+    uses = []
+    for nd in cfg.nodes:
+        if nd.kind != "stmt" or nd is binds[0] or not cfg.can_reach(binds[0].id, nd.id):
+            continue
+        if any(isinstance(x, ast.Name) and x.id == val for x in ast.walk(nd.ast)):
+            uses.append(nd)
+    ck.need(uses, "DelDummyPhi.del_dummy_phi: no use of the class value `%s` found" % val)
+    for nd in uses:
+        f = facts.get(nd.id, frozenset())
+        deep = ("false", "expr_has_mem(%s)" % val) in f
+        # "not a call" is a disjunction (not an operator, or an operator whose name does not start with call): a path obligation
+        from sa.pathob import undischarged as _und7
+
+        def not_call_edge(n7, lab):
+            if n7.kind != "test" or lab is not False:
+                return False
+            t7 = norm(n7.ast)
+            return t7 in ("%s.is_op()" % val, "%s.op.startswith('call')" % val, "is_function_call(%s)" % val)
+        nocall = _und7(cfg, lambda n7: False, edge_ok=not_call_edge, start=binds[0].id, targets=[nd.id]) is None
+        ck.ob("R7", "del_dummy_phi:value-without-memory", deep, m.where(nd.ast),
+              "the class value `%s` is written into the block where only %s is known: a value with a memory read inside it (`@32[p] + 1`) is "
+              "re-evaluated at the join after stores the original definition did not see" % (val, sorted(x[1] for x in f if val in x[1])[:3] or "nothing"))
+        ck.ob("R7", "del_dummy_phi:value-not-a-call", nocall, m.where(nd.ast), "the class value `%s` may be a call when it is propagated" % val)
